@@ -14,6 +14,7 @@ import (
 
 	"github.com/ghodss/yaml"
 
+	"verif/cells"
 	"verif/genrun"
 	"verif/report"
 	"verif/spec"
@@ -215,6 +216,14 @@ func c15Mutants(name string, root any) []c15mut {
 				add(append(append([]string{}, ptr...), "default"), "var-default-self", ptrString(ptr)+"/default = "+self, setAt(root, append(append([]string{}, ptr...), "default"), self, false), "")
 				add(append(append([]string{}, ptr...), "default"), "var-default-selfx", ptrString(ptr)+"/default = x"+self, setAt(root, append(append([]string{}, ptr...), "default"), "x"+self, false), "")
 			}
+			// two server variables whose defaults mention each other
+			if len(ptr) >= 1 && ptr[len(ptr)-1] == "variables" && len(x) >= 2 {
+				ns := spec.SortedKeys(x)
+				a, b := ns[0], ns[1]
+				d := setAt(root, append(append([]string{}, ptr...), a, "default"), "{"+b+"}", false)
+				d = setAt(d, append(append([]string{}, ptr...), b, "default"), "{"+a+"}", false)
+				add(append(append([]string{}, ptr...), a), "var-default-cycle", ptrString(ptr)+": "+a+" <-> "+b, d, "")
+			}
 			for _, k := range spec.SortedKeys(x) {
 				walk(x[k], append(ptr, k))
 			}
@@ -402,6 +411,25 @@ func C15(run *report.Run) {
 		var root any
 		if json.Unmarshal(cs[i].Spec.YAML(), &root) == nil {
 			docs = append(docs, doc{"cell:" + cs[i].ID, root, 0})
+		}
+	}
+	// documents with servers (and server variables) are part of the corpus in every tier
+	for _, b := range cells.BaseForms {
+		if len(b.Servers) == 0 {
+			continue
+		}
+		base, _, _ := cells.Base()
+		var root any
+		if json.Unmarshal(cells.WithBase(base, b).YAML(), &root) == nil {
+			docs = append(docs, doc{"base:" + b.Name, root, 0})
+		}
+	}
+	{
+		base, _, _ := cells.Base()
+		base.Servers = []spec.Server{{URL: "https://example.com/{a}/{b}", Vars: map[string]string{"a": "x", "b": "{a}"}}}
+		var root any
+		if json.Unmarshal(base.YAML(), &root) == nil {
+			docs = append(docs, doc{"base:vars-nested", root, 0})
 		}
 	}
 	var muts []c15mut
